@@ -1320,6 +1320,343 @@ def check(ctx):
             rows_f = rows * rep
             wmod_add(kind, call, k, cost, a, rows_f, [(case | {"row": r_}, o_, None if kind in ("european", "european_binary") else t_)
                                                       for r_, o_, t_ in zip(rows_f, got[0], tols)])
+    # ---------------- OBJECTS WITH A LIFE OF THEIR OWN, for every module of the file (LeakyClamp, Clamp, SVIVariance, WhalleyWilmott) and the option
+    # strings of the functional forms.  (1) SEVERAL INSTANCES of one class alive at once with different configuration, called in interleaved order
+    # (every older instance is called again after every younger one was constructed): each behaves per its OWN configuration.  (2) The
+    # inverted_output option given as a string BUILT AT RUN TIME (read from JSON, joined, lower-cased, decoded ...: equal to 'mean' / 'max' but not the
+    # interned source literal): same result as the literal; an invalid one built at run time is rejected.  (3) Public ATTRIBUTES re-assigned after
+    # construction where the unchanged code reads them at call time (LeakyClamp.clamped_slope / .inverted_output, SVIVariance.a / b / rho / m /
+    # sigma, WhalleyWilmott.a, the cost of the underlier): the module then behaves as one freshly constructed with the new value.  Oracles: the
+    # documented formulas on the configuration the harness keeps per object.  All calls also go to the model ops (clamp, svi, ww_module).
+    import json as _json
+    n_life = 1 if ctx.tier == "quick" else 8
+    SLOPES = [F(0), F(1, 128), F(1, 8), F(1, 4), F(1, 2), F(1)]
+
+    def rt_string(s, how=None):
+        """a string equal to `s` that is a new object, as a value read from a file / command line is (not the interned literal of the source)"""
+        how = how or g.choice(["join", "json", "lower", "slice", "decode"])
+        v = {"join": lambda: "".join([s[:1], s[1:]]), "json": lambda: _json.loads(_json.dumps({"inverted_output": s}))["inverted_output"],
+             "lower": lambda: s.upper().lower(), "slice": lambda: (s + " ")[:-1], "decode": lambda: s.encode("ascii").decode("ascii")}[how]()
+        ctx.stats[f"life:run-time string is the literal object={v is s}"] += 1
+        return v, how
+
+    def clamp_elems(n_, scalar_bounds):
+        """(x, lo, hi) with both bounds given: at least one element outside ordinary bounds (the slope shows) and one with min > max (the option shows)"""
+        slo, shi = g.dy(-2, 2, 2), g.dy(-2, 2, 2)
+        if scalar_bounds and n_ >= 2:
+            scalar_bounds = False          # scalar bounds are ordinary or inverted for all elements: both kinds need per-element bounds
+        el = []
+        for i in range(n_):
+            lo, hi = (slo, shi) if scalar_bounds else (g.dy(-2, 2, 2), g.dy(-2, 2, 2))
+            if not scalar_bounds and i == 0:
+                lo, hi = max(lo, hi) + F(1, 4), min(lo, hi)                      # inverted
+            if not scalar_bounds and i == 1:
+                lo, hi = min(lo, hi), max(lo, hi)                                 # ordinary, x outside
+            x = g.choice([g.dy(-4, 4, 3), lo - g.dy(0, 2, 3) - F(1, 8), hi + g.dy(0, 2, 3) + F(1, 8)]) if i != 1 else \
+                g.choice([lo - g.dy(0, 2, 3) - F(1, 8), hi + g.dy(0, 2, 3) + F(1, 8)])
+            el.append([x, lo, hi])
+        return el, scalar_bounds
+
+    def clamp_args(el, scalar_bounds, dt_):
+        x = torch.tensor([float(e[0]) for e in el], dtype=dt_)
+        if scalar_bounds:
+            return x, float(el[0][1]), float(el[0][2])
+        return x, torch.tensor([float(e[1]) for e in el], dtype=dt_), torch.tensor([float(e[2]) for e in el], dtype=dt_)
+
+    def clamp_judge(fn, name, st, v, el, slope, mode, case, key, what):
+        """exact comparison with the documented piecewise values; appends the call to the requests of op clamp.  True = as documented"""
+        if st != "ok" or not torch.is_tensor(v) or tuple(v.shape) != (len(el),):
+            ctx.fail(f"{name} raised / returned a wrong shape {what}", case, key=key + ":error", detail=v if st != "ok" else str(getattr(v, "shape", type(v))))
+            return False
+        got = tensor_to_fracs(v)
+        exp = [spec_clamp(x, lo, hi, mode) if fn in ("clamp", "clamp_mod") else spec_leaky(x, lo, hi, slope, mode) for x, lo, hi in el]
+        own_creqs.append({"op": "clamp", "fn": fn, "slope": rat_str(slope), "mode": mode,
+                          "elems": [[rat_str(x), rat_str(lo), rat_str(hi)] for x, lo, hi in el]})
+        own_cmeta.append((case | {"fn": fn}, ("ok", got)))
+        bad = [i for i, (a_, b_) in enumerate(zip(got, exp)) if a_ != b_]
+        if bad:
+            i = bad[0]
+            ctx.fail(f"{name} differs from its documented piecewise formula {what}", case, key=key,
+                     detail={"element": [rat_str(z) for z in el[i]], "inverted_bounds": el[i][1] > el[i][2], "impl": rat_str(got[i]), "expected": rat_str(exp[i]),
+                             "n_wrong": len(bad)})
+        return not bad
+
+    # (2) option strings built at run time: leaky_clamp, clamp, LeakyClamp.  Corpus: every entry point x both modes x every way of building
+    rt_corpus = [(fn_, md_, how_) for fn_ in ("leaky", "clamp", "leaky_mod") for md_ in ("max", "mean") for how_ in ("join", "json", "lower", "slice", "decode")]
+    for it_ in range(len(rt_corpus) + 40 * n_life):
+        fn, mode, how = g.choice(["leaky", "clamp", "leaky_mod"]), g.weighted([("max", 3), ("mean", 2), ("bogus", 1)]), None
+        if it_ < len(rt_corpus):
+            fn, mode, how = rt_corpus[it_]
+        dtn = g.weighted([("float64", 3), ("float32", 1)])
+        dt_ = getattr(torch, dtn)
+        slope = g.choice(SLOPES) if fn != "clamp" else F(0)
+        el, sb = clamp_elems(g.choice([1, 2, 3, 5]), g.chance(0.3))
+        x, lo, hi = clamp_args(el, sb, dt_)
+        mode_s, how = rt_string(mode, how)
+        name = {"leaky": "leaky_clamp", "clamp": "clamp", "leaky_mod": "LeakyClamp"}[fn]
+        case = {"fn": fn, "slope": rat_str(slope), "inverted_output": mode, "string_built_by": how, "dtype": dtn, "scalar_bounds": sb,
+                "elems": [[rat_str(z) for z in e] for e in el]}
+        if fn == "leaky":
+            st, v, mut = call_impl(fnl.leaky_clamp, x, lo, hi, clamped_slope=float(slope), inverted_output=mode_s)
+        elif fn == "clamp":
+            st, v, mut = call_impl(fnl.clamp, x, lo, hi, inverted_output=mode_s)
+        else:
+            st, v, mut = call_impl(lambda *a_: LeakyClampMod(clamped_slope=float(slope), inverted_output=mode_s)(*a_), x, lo, hi)
+        ctx.case(case, True, tag="life:run-time-string:" + fn)
+        ctx.stats[f"life:run-time string:{fn}:{mode}"] += 1
+        ctx.traces += 1
+        if mut:
+            ctx.mutated(name, mut, case)
+        if mode == "bogus":
+            if st == "ok":
+                ctx.fail(f"{name} accepts an invalid inverted_output given as a string built at run time (both bounds given)", case,
+                         key=f"{fn}:run-time-option-string:bogus-mode")
+            continue
+        clamp_judge(fn, name, st, v, el, slope, mode, case, f"{fn}:run-time-option-string",
+                    f"when inverted_output={mode!r} is a string built at run time (equal to, but not the same object as, the source literal)")
+
+    # (1) + (3) LeakyClamp / Clamp modules: a session = some modules constructed one after the other, then a sequence of calls / attribute assignments
+    def life_steps(n_mod, n_extra, attrs, with_sets):
+        """every module once in order of construction (the oldest first: after all younger ones exist), then random calls and assignments"""
+        steps = [("call", j) for j in range(n_mod)]
+        for _i in range(n_extra):
+            j = g.randint(0, n_mod - 1)
+            if with_sets and g.chance(0.5):
+                steps.append(("set", j, g.choice(attrs)))
+            steps.append(("call", j if g.chance(0.5) else g.randint(0, n_mod - 1)))
+        return steps
+
+    lc_corpus = [("instances", [(F(1, 128), "mean"), (F(1, 2), "max")]), ("instances", [(F(1, 2), "max"), (F(1, 128), "mean")]),
+                 ("instances", [(F(0), "max"), (F(1), "max"), (F(1, 4), "mean")]), ("instances", [(F(1, 4), "mean"), (F(1, 4), "max")]),
+                 ("instances", [(F(1, 8), "max"), (F(1, 2), "max")]), ("attributes", [(F(1, 128), "mean")]), ("attributes", [(F(1, 2), "max")]),
+                 ("all", [(F(1, 128), "max"), (F(1, 2), "mean")])]
+    for it_ in range(len(lc_corpus) + 40 * n_life):
+        scen = g.weighted([("instances", 3), ("attributes", 2), ("all", 2)])
+        n_mod = 1 if scen == "attributes" else g.choice([2, 2, 3, 4])
+        confs = [(g.choice(SLOPES), g.choice(["mean", "max"])) for _j in range(n_mod)]
+        if n_mod > 1 and len(set(confs)) == 1:
+            confs[-1] = (g.choice([s_ for s_ in SLOPES if s_ != confs[0][0]]), "max" if confs[0][1] == "mean" else "mean")
+        if it_ < len(lc_corpus):
+            scen, confs = lc_corpus[it_][0], list(lc_corpus[it_][1])
+            n_mod = len(confs)
+        dtn = g.weighted([("float64", 3), ("float32", 1)])
+        dt_ = getattr(torch, dtn)
+        mods, state, hows = [], [], []
+        for slope, mode in confs:
+            mode_s, how = rt_string(mode) if scen == "all" and g.chance(0.6) else (mode, "literal")
+            mods.append(LeakyClampMod(clamped_slope=float(slope), inverted_output=mode_s))
+            state.append({"slope": slope, "mode": mode})
+            hows.append(how)
+        n_plain = g.choice([0, 0, 1, 2]) if scen != "attributes" else 0           # Clamp() has no configuration: instances of it live among the others
+        plain = [ClampMod() for _j in range(n_plain)]
+        steps = life_steps(n_mod + n_plain, g.randint(1, 4) if scen != "attributes" else g.randint(2, 4), ["clamped_slope", "inverted_output"],
+                           scen in ("attributes", "all"))
+        if scen == "attributes":
+            steps = [("call", 0), ("set", 0, "clamped_slope"), ("call", 0), ("set", 0, "inverted_output"), ("call", 0)] + steps[1:]
+        key = {"instances": "LeakyClamp:several-instances", "attributes": "LeakyClamp:attribute-reassigned",
+               "all": "LeakyClamp:several-instances+run-time-strings+attributes"}[scen]
+        base = {"scenario": scen, "dtype": dtn, "constructed": [[rat_str(s_), m_, h_] for (s_, m_), h_ in zip(confs, hows)], "n_Clamp_modules": n_plain}
+        log, was_set = [], [False] * n_mod
+        for step in steps:
+            j = step[1]
+            if step[0] == "set":
+                if j >= n_mod:
+                    continue
+                if step[2] == "clamped_slope":
+                    new = g.choice([s_ for s_ in SLOPES if s_ != state[j]["slope"]])
+                    mods[j].clamped_slope = float(new)
+                    state[j]["slope"] = new
+                    log.append(["set", j, "clamped_slope", rat_str(new)])
+                else:
+                    new = "max" if state[j]["mode"] == "mean" else "mean"
+                    new_s, how = rt_string(new) if scen == "all" and g.chance(0.5) else (new, "literal")
+                    mods[j].inverted_output = new_s
+                    state[j]["mode"] = new
+                    hows[j] = how
+                    log.append(["set", j, "inverted_output", new, how])
+                was_set[j] = True
+                continue
+            el, sb = clamp_elems(g.choice([2, 3, 5]), False)
+            x, lo, hi = clamp_args(el, sb, dt_)
+            log.append(["call", j])
+            case = base | {"steps_so_far": list(log), "called": j, "elems": [[rat_str(z) for z in e] for e in el]}
+            if j >= n_mod:
+                st, v, mut = call_impl(plain[j - n_mod], x, lo, hi)
+                ctx.case(case, True, tag="life:Clamp")
+                ctx.traces += 1
+                clamp_judge("clamp_mod", "Clamp()", st, v, el, F(0), "mean", case, "Clamp:several-instances", "with other clamp modules alive")
+                continue
+            st, v, mut = call_impl(mods[j], x, lo, hi)
+            ctx.case(case | {"configuration_now": [rat_str(state[j]["slope"]), state[j]["mode"]]}, True, tag="life:LeakyClamp:" + scen)
+            ctx.stats[f"life:LeakyClamp:{scen}:call after an attribute was re-assigned={was_set[j]}"] += 1
+            ctx.traces += 1
+            if mut:
+                ctx.mutated("LeakyClamp", mut, case)
+            what = ("after its attributes were re-assigned (must behave as LeakyClamp constructed with the new values)" if was_set[j] else
+                    "for its own configuration while other LeakyClamp modules with another configuration are alive")
+            if scen == "all":
+                what += f" (its inverted_output string was given as: {hows[j]}; some strings of this session are built at run time)"
+            ok_ = clamp_judge("leaky_mod", f"LeakyClamp module #{j}", st, v, el, state[j]["slope"], state[j]["mode"],
+                              case | {"configuration_now": [rat_str(state[j]["slope"]), state[j]["mode"]]}, key, what)
+            if (float(mods[j].clamped_slope), str(mods[j].inverted_output)) != (float(state[j]["slope"]), state[j]["mode"]):
+                ctx.fail("the attributes of a LeakyClamp module no longer show its own configuration", case, key=key + ":attributes",
+                         detail={"clamped_slope": mods[j].clamped_slope, "inverted_output": mods[j].inverted_output})
+                ok_ = False
+            if not ok_:
+                break
+
+    # (1) + (3) SVIVariance modules: parameters as floats / 0-dim tensors; a, b, rho, m, sigma re-assigned
+    SVI_ATTRS = ["a", "b", "rho", "m", "sigma"]
+
+    def svi_par(i):
+        rng = [(-0.1, 0.1), (0, 1), (-0.9, 0.9), (-0.5, 0.5), (0.01, 2)][i]
+        return g.choice([g.r.uniform(*rng), g.r.uniform(*rng), g.r.uniform(-2, 2), 0.0, 1.0])
+
+    def svi_form(v):
+        return torch.tensor(v, dtype=torch.float64) if g.chance(0.3) else v
+
+    for it_ in range(3 + 30 * n_life):
+        scen = ["instances", "attributes", "all"][it_] if it_ < 3 else g.weighted([("instances", 3), ("attributes", 2), ("all", 2)])
+        n_mod = 1 if scen == "attributes" else g.choice([2, 2, 3, 4])
+        state = [[svi_par(i) for i in range(5)] for _j in range(n_mod)]
+        mods = [SVIVariance(*[svi_form(v) for v in pars]) for pars in state]
+        steps = life_steps(n_mod, g.randint(1, 4), SVI_ATTRS, scen in ("attributes", "all"))
+        if scen == "attributes":
+            steps = [("call", 0)] + [s_ for nm in g.r.sample(SVI_ATTRS, 3) for s_ in (("set", 0, nm), ("call", 0))] + steps[1:]
+        key = {"instances": "SVIVariance:several-instances", "attributes": "SVIVariance:attribute-reassigned",
+               "all": "SVIVariance:several-instances+attributes"}[scen]
+        base = {"scenario": scen, "constructed": [list(p_) for p_ in state]}
+        log, was_set = [], [False] * n_mod
+        for step in steps:
+            j = step[1]
+            if step[0] == "set":
+                i = SVI_ATTRS.index(step[2])
+                new = svi_par(i)
+                setattr(mods[j], step[2], svi_form(new))
+                state[j][i] = new
+                was_set[j] = True
+                log.append(["set", j, step[2], new])
+                continue
+            ks = [g.r.uniform(-1, 1) for _i in range(g.choice([1, 3]))]
+            log.append(["call", j])
+            case = base | {"steps_so_far": list(log), "called": j, "parameters_now": list(state[j]), "k": ks}
+            st, v, mut = call_impl(mods[j], torch.tensor(ks, dtype=torch.float64))
+            ctx.case(case, True, tag="life:SVIVariance:" + scen)
+            ctx.stats[f"life:SVIVariance:{scen}:call after an attribute was re-assigned={was_set[j]}"] += 1
+            ctx.traces += 1
+            if mut:
+                ctx.mutated("SVIVariance", mut, case)
+            if st != "ok" or tuple(v.shape) != (len(ks),):
+                ctx.fail("SVIVariance raised / returned a wrong shape", case, key=key + ":error", detail=v if st != "ok" else list(v.shape))
+                break
+            a_, b_, rho, m_, sg = state[j]
+            got = [float(z) for z in v.detach().tolist()]
+            exp = [a_ + b_ * (rho * (k_ - m_) + math.sqrt((k_ - m_) ** 2 + sg ** 2)) for k_ in ks]
+            for k_, gv in zip(ks, got):
+                sreq_elems.append([k_] + list(state[j]))
+                smeta.append(gv)
+            if not all(close(gv, ev) for gv, ev in zip(got, exp)):
+                ctx.fail("SVIVariance module differs from a + b(rho(k-m) + sqrt((k-m)^2 + sigma^2)) for the parameters it has now " +
+                         ("(attributes re-assigned after construction)" if was_set[j] else "(other SVIVariance modules with other parameters are alive)"),
+                         case, key=key, detail={"impl": got, "expected": exp})
+                break
+
+    # (1) + (3) WhalleyWilmott modules: different derivatives / costs / risk aversions, some sharing one derivative (different a) or one underlier
+    # (two derivatives); m.a and the cost of the underlier re-assigned.  forward and width of every call judged by the band rule
+    for it_ in range(3 + 14 * n_life):
+        scen = ["instances", "attributes", "all"][it_] if it_ < 3 else g.weighted([("instances", 3), ("attributes", 2), ("all", 2)])
+        n_mod = 1 if scen == "attributes" else g.choice([2, 2, 3])
+        stocks, derivs, mods, state = [], [], [], []
+        for j in range(n_mod):
+            share = g.weighted([("derivative", 1), ("underlier", 1), ("nothing", 2)]) if j else "nothing"
+            a = g.choice([0.25, 1.0, 3.0, 2, 0.5])
+            if share == "derivative":
+                di = g.randint(0, len(derivs) - 1)
+                a = g.choice([z for z in [0.25, 1.0, 3.0, 2, 0.5, 10.0] if z not in [s_["a"] for s_ in state if s_["deriv"] == di]])
+            else:
+                if share == "underlier":
+                    si = g.randint(0, len(stocks) - 1)
+                else:
+                    stocks.append({"cost": g.choice([1e-4, 1e-3, 1e-2, 5e-2, 0.0])})
+                    si = len(stocks) - 1
+                    stocks[si]["obj"] = BrownianStock(cost=stocks[si]["cost"], dtype=torch.float64)
+                kind = g.choice(["european", "european", "european_binary"])
+                k, call = g.choice([0.5, 1.0, 2.0, 7.5]), g.chance(0.7)
+                derivs.append({"kind": kind, "k": k, "call": call, "stock": si, "obj": ww_derivative(kind, stocks[si]["obj"], k, call)})
+                di = len(derivs) - 1
+            mods.append(WhalleyWilmott(derivs[di]["obj"], a=a))
+            state.append({"a": a, "deriv": di})
+        refs = [BlackScholes(ww_derivative(d_["kind"], BrownianStock(dtype=torch.float64), d_["k"], d_["call"])) for d_ in derivs]
+        steps = life_steps(n_mod, g.randint(1, 3), ["a", "cost"], scen in ("attributes", "all"))
+        if scen == "attributes":
+            steps = [("call", 0), ("set", 0, "a"), ("call", 0), ("set", 0, "cost"), ("call", 0)] + steps[1:]
+        key = {"instances": "WhalleyWilmott:several-instances", "attributes": "WhalleyWilmott:attribute-reassigned",
+               "all": "WhalleyWilmott:several-instances+attributes"}[scen]
+        base = {"scenario": scen, "constructed": [{"a": s_["a"], "derivative": s_["deriv"]} for s_ in state],
+                "derivatives": [{k_: d_[k_] for k_ in ("kind", "k", "call", "stock")} for d_ in derivs], "costs_at_construction": [s_["cost"] for s_ in stocks]}
+        log, was_set = [], [False] * n_mod
+        for step in steps:
+            j = step[1]
+            d_ = derivs[state[j]["deriv"]]
+            if step[0] == "set":
+                if step[2] == "a":
+                    new = g.choice([z for z in [0.25, 1.0, 3.0, 2, 0.5, 10.0] if z != state[j]["a"]])
+                    mods[j].a = new
+                    state[j]["a"] = new
+                else:
+                    new = g.choice([z for z in [0.0, 1e-4, 1e-3, 1e-2, 5e-2] if z != stocks[d_["stock"]]["cost"]])
+                    mods[j].derivative.underlier.cost = new
+                    stocks[d_["stock"]]["cost"] = new
+                    was_set = [w_ or derivs[s_["deriv"]]["stock"] == d_["stock"] for w_, s_ in zip(was_set, state)]
+                was_set[j] = True
+                log.append(["set", j, step[2], new])
+                continue
+            kind, k, call, a, cost = d_["kind"], d_["k"], d_["call"], state[j]["a"], stocks[d_["stock"]]["cost"]
+            ref = refs[state[j]["deriv"]]
+            rows, exps, wdocs = [], [], []
+            for _i in range(g.choice([1, 3])):
+                s, t, v = g.r.uniform(-0.5, 0.5), g.choice([0.01, 0.1, 0.25, 1.0, 2.0, g.r.uniform(0.01, 3)]), g.choice([0.1, 0.2, 0.5, g.r.uniform(0.05, 1.0)])
+                x3 = torch.tensor([[s, t, v]], dtype=torch.float64)
+                with torch.no_grad():
+                    delta, gam = float(ref.delta(x3[..., [0]], x3[..., [1]], x3[..., [2]])), float(ref.gamma(x3[..., [0]], x3[..., [1]], x3[..., [2]]))
+                wdoc = (3 * cost * gam ** 2 * (k * math.exp(s)) / (2 * a)) ** (1 / 3) if cost > 0 else 0.0
+                sgn = g.choice([-1, 1])
+                where = g.choice(["inside", "outside", "near_edge_inside", "near_edge_outside", "at_delta"])
+                prev = delta + sgn * {"inside": wdoc * g.r.uniform(0, 0.6), "outside": wdoc + g.r.uniform(0.01, 1), "near_edge_inside": wdoc * g.r.uniform(0.6, 0.95),
+                                      "near_edge_outside": wdoc * g.r.uniform(1.05, 1.6) + 1e-4, "at_delta": 0.0}[where]
+                rows.append([s, t, v, prev])
+                exps.append(prev if delta - wdoc <= prev <= delta + wdoc else (delta + wdoc if prev > delta + wdoc else delta - wdoc))
+                wdocs.append(wdoc)
+            log.append(["call", j])
+            case = base | {"steps_so_far": list(log), "called": j, "a_now": a, "cost_now": cost, "kind": kind, "k": k, "call": call, "rows": rows}
+            ctx.case(case, True, tag="life:WhalleyWilmott:" + scen)
+            ctx.stats[f"life:WhalleyWilmott:{scen}:call after an attribute was re-assigned={was_set[j]}"] += 1
+            ctx.traces += 1
+            if not all(math.isfinite(z) for z in exps + wdocs):
+                continue
+            xt = torch.tensor(rows, dtype=torch.float64)
+            st, o, mut = call_impl(mods[j], xt)
+            st2, w, mut2 = call_impl(mods[j].width, xt[..., :-1])
+            if mut or mut2:
+                ctx.mutated("WhalleyWilmott", mut or mut2, case)
+            if st != "ok" or st2 != "ok" or tuple(o.shape) != (len(rows), 1) or tuple(w.shape) != (len(rows), 1):
+                ctx.fail("WhalleyWilmott.forward / .width raised / returned a wrong shape", case, key=key + ":error",
+                         detail=o if st != "ok" else (w if st2 != "ok" else [list(o.shape), list(w.shape)]))
+                break
+            outs, wids = [float(z) for z in o.detach().reshape(-1).tolist()], [float(z) for z in w.detach().reshape(-1).tolist()]
+            what = ("for the a / the cost of the underlier it has now (re-assigned after construction)" if was_set[j] else
+                    "for its own derivative and risk aversion while other WhalleyWilmott modules are alive")
+            bad_w = [i for i, (wi, wd) in enumerate(zip(wids, wdocs)) if not abs(wi - wd) <= 1e-7 * wd + 1e-12]
+            bad_o = [i for i, (ov, ev, wd) in enumerate(zip(outs, exps, wdocs)) if not abs(ov - ev) <= 1e-9 * (1 + abs(ev)) + 1e-7 * wd]
+            if bad_w:
+                ctx.fail(f"WhalleyWilmott.width is not (3 c gamma^2 S / (2a))^(1/3) {what}", case, key=key + ":width",
+                         detail={"row": rows[bad_w[0]], "impl": wids[bad_w[0]], "width_doc": wdocs[bad_w[0]]})
+            if bad_o:
+                ctx.fail(f"Whalley-Wilmott hedge is not clamp(prev, delta -/+ (3 c gamma^2 S / (2a))^(1/3)) {what}", case, key=key + ":band",
+                         detail={"row": rows[bad_o[0]], "impl": outs[bad_o[0]], "expected": exps[bad_o[0]], "width_doc": wdocs[bad_o[0]]})
+            if bad_w or bad_o:
+                break
+            wmod_add(kind, call, k, cost, float(a), rows, [(case | {"row": r_}, o_, None) for r_, o_ in zip(rows, outs)])
     try:
         bouts = ctx.driver([{"op": "bilerp", "elems": enc_rat(breq)}])
         wwouts = ctx.driver(wwreqs)
